@@ -67,7 +67,9 @@ class WatchWorld(VfsWorld):
 
 # ---------------------------------------------------------------------------------------------------- C15
 TREE = ['/p/src', '/p/src/a.rs', '/p/src/.rs', '/p/src/b.tar.gz', '/p/src/rs', '/p/src/' + BAD + '.rs', '/p/src/sub', '/p/src/sub/c.rs',
-        '/p/src/.zinoma', '/p/src/.zinoma/d.rs', '/p/src/sub/.zinoma', '/p/src/sub/.zinoma/e.rs', '/p/one.rs', '/p/missing']
+        '/p/src/.zinoma', '/p/src/.zinoma/d.rs', '/p/src/sub/.zinoma', '/p/src/sub/.zinoma/e.rs', '/p/one.rs', '/p/missing',
+        '/p/src/l.rs', '/tgt']
+C15_LINKS = {'/p/src/l.rs': '/tgt'}     # may be a symbolic link to /tgt (outside every declared path), which may be a file, a directory or missing
 DECLS = [
     ('no_filter', [(['/p/src'], None)]),
     ('single_ext', [(['/p/src'], ['.rs'])]),
@@ -85,7 +87,9 @@ def c15_explore(arg):
         prog = Program(repo)
         roots = [r for ps, e in decl for r in ps]
         tree = [p for p in TREE if any(p == r or p.startswith(r.rstrip('/') + '/') for r in roots)]
-        world = VfsWorld(tree, always_dirs=('/', '/p'))
+        links = {l: t for l, t in C15_LINKS.items() if l in tree}
+        tree += [t for t in links.values() if t not in tree]
+        world = VfsWorld(tree, always_dirs=('/', '/p'), links=links)
         I = Interp(prog, world, stubs={}, max_paths=40000)
         fd = prog.find_fn('fs::list_files_in_resources')
 
@@ -152,7 +156,7 @@ def c15_explore(arg):
 
 
 def decode(world, m):
-    return {p: ['absent', 'file', 'dir'][min(m.eval(world.sym_kind(1, p), model_completion=True).as_long(), 2)] for p in world.paths}
+    return {p: ['absent', 'file', 'dir', 'link'][m.eval(world.sym_kind(1, p), model_completion=True).as_long()] for p in world.paths}
 
 
 def c15_transform_extensions(prog):
@@ -186,6 +190,9 @@ def native_listing(decl, world, repo, probe=None):
                 os.makedirs(real, exist_ok=True)
             elif k == 'file' and os.path.isdir(os.path.dirname(real)):
                 open(real, 'w').write('x')
+        for p in sorted(world, key=len):
+            if world[p] == 'link' and os.path.isdir(os.path.dirname(root + p)):
+                os.symlink(root + C15_LINKS[p], root + p)
         lines = ['targets:', '  t:', '    build: echo t', '    input:']
         for ps, ex in decl:
             lines.append('      - paths: [%s]' % ', '.join(x[3:] for x in ps))
@@ -195,10 +202,10 @@ def native_listing(decl, world, repo, probe=None):
         r = run_native(binpath, root + '/p', ['t'], None, timeout=60)
         denoted = []
         for p in sorted(world):
-            if world[p] != 'file' or (probe is not None and p not in probe):
+            if world[p] not in ('file', 'link') or (probe is not None and p not in probe):
                 continue
             real = (root + p).encode('utf-8', 'surrogateescape')
-            if not os.path.isfile(real):
+            if not os.path.isfile(real):        # (follows links)
                 continue
             open(real, 'w').write('CHANGED ' + str(len(denoted)))
             r2 = run_native(binpath, root + '/p', ['t'], None, timeout=60)
@@ -214,6 +221,9 @@ def reference_listing(decl, world):
     for ps, exts in decl:
         for root in ps:
             for p, k in world.items():
+                if k == 'link':
+                    k = world.get(C15_LINKS.get(p), 'absent')       # a link counts as what it resolves to
+                    k = k if k == 'file' else 'other'
                 if k != 'file' or not (p == root or p.startswith(root.rstrip('/') + '/')):
                     continue
                 rel = [root.rstrip('/').split('/')[-1]] + ([c for c in p[len(root):].split('/') if c] if p != root else [])
@@ -436,8 +446,11 @@ def run(prop, tier, seed, repo, jobs):
                 if decl is not None and 'world' in ob:
                     try:
                         probe = [ob['file']] if ob.get('file') else None
-                        nat = native_listing(decl, ob['world'], repo, probe)
-                        ref = [x for x in reference_listing(decl, ob['world']) if probe is None or x in probe]
+                        # a file whose name is not UTF-8 makes the record unstorable (every run re-executes), which would hide
+                        # the difference probed here: leave it out of the concrete tree unless it is the file in question
+                        cw = {q: ('absent' if (BAD in q and probe and q not in probe) else k_) for q, k_ in ob['world'].items()}
+                        nat = native_listing(decl, cw, repo, probe)
+                        ref = [x for x in reference_listing(decl, cw) if probe is None or x in probe]
                         confirmed = nat != ref
                     except Exception as ex:   # pragma: no cover
                         nat = [str(ex)]
